@@ -168,14 +168,155 @@ def specbytes_contracts():
         types={'spec_bytes': 'U', 'typ': 'U'},
         ensures=[('fields-are-the-arguments', "self.spec_bytes == spec_bytes and self.typ == typ")],
     )
-    nb = Contract(
-        path=PATH,
-        qualname='SpecBytes.n_bytes',
-        self_fields={'spec_bytes': 'U', 'typ': 'U'},
-        ensures=[('n_bytes-is-len-of-spec_bytes', "result == len(self.spec_bytes)")],
-        spec_funcs={'len_U': (['U'], 'int')},
-    )
-    return [init, nb]
+    return [init]
+
+
+SPECBYTES_REPLAY = r'''
+import sys, json, os, ast, enum, typing
+src = open(os.path.join(os.environ['VERIF_REPO'], 'hail/python/hailtop/batch_client/aioclient.py')).read()
+tree = ast.parse(src)
+keep = [n for n in tree.body if isinstance(n, ast.ClassDef) and n.name in ('SpecType', 'SpecBytes')]
+ns = {k: getattr(typing, k) for k in typing.__all__}
+ns.update({'Enum': enum.Enum, '__name__': 'replay'})
+exec(compile(ast.Module(body=keep, type_ignores=[]), 'aioclient-extract', 'exec'), ns)
+SpecBytes = ns['SpecBytes']; SpecType = ns['SpecType']
+# what orjson.dumps puts on the wire is UTF-8 JSON text with non-ASCII characters NOT escaped
+samples = ['{}', '{"name":"abc"}', '{"name":"Zo\u00eb"}', '{"name":"\u60a3\u8005"}', '{"name":"\U0001f9ec"}', '']
+res = {'confirmed': False, 'tried': len(samples)}
+for text in samples:
+    wire = text.encode('utf-8')
+    for typ in (SpecType.JOB_GROUP, SpecType.JOB):
+        s = SpecBytes(wire, typ)
+        probs = []
+        if s.spec_bytes != wire: probs.append('spec_bytes is not the constructor argument')
+        if s.typ is not typ: probs.append('typ is not the constructor argument')
+        nb = s.n_bytes
+        if nb != len(wire): probs.append('n_bytes == %r but %d bytes go on the wire' % (nb, len(wire)))
+        if s.n_bytes != nb: probs.append('n_bytes changes between reads')
+        if s.spec_bytes != wire: probs.append('reading n_bytes changed spec_bytes')
+        if probs and not res['confirmed']:
+            res = {'confirmed': True, 'what': '; '.join(probs), 'input': {'spec_bytes_utf8': text, 'n_wire_bytes': len(wire), 'typ': typ.name}}
+print(json.dumps(res))
+'''
+
+
+def specbytes_class(ctx):
+    """class SpecBytes under contract, as the composition that `_create_bunches` relies on (axiom 1 of AXIOMS): for EVERY
+    spec_bytes b and typ t, the object that the REAL `SpecBytes.__init__(b, t)` leaves behind has `.spec_bytes == b`,
+    `.typ == t` and its REAL `n_bytes` getter yields len(b) - the number of BYTES of what goes on the wire - on the first and
+    on any later read, without changing spec_bytes / typ.  The constructor and the getter are executed symbolically by
+    vc/pyclass.Inliner; every other @property of the class that the getter touches is executed the same way (discovered from
+    the class body on every run, nothing about them is modelled by hand).  `bytes.decode` is the only library call given a
+    meaning: an uninterpreted text whose length (characters) is between 0 and the number of bytes - UTF-8 needs one to four
+    bytes per character - and NOT equal to it.
+    Frame (scan): no statement of the module outside class SpecBytes assigns a field of a SpecBytes object."""
+    from vc.pyclass import ClassIndex, Inliner
+
+    cx = ClassIndex([PATH])
+    if 'SpecBytes' not in cx.classes:
+        raise core.Undecided('anchor-moved: class SpecBytes not found in %s' % PATH)
+    cnode = cx.classes['SpecBytes']
+    props = [n.name for n in cnode.body if isinstance(n, ast.FunctionDef) and any(ast.unparse(d) in ('property', 'functools.cached_property', 'cached_property') for d in n.decorator_list)]
+    ctx.add(core.decided('SpecBytes/n_bytes-is-a-property', 'n_bytes' in props, 'properties of SpecBytes: %s' % props, kind='scan'))
+    len_u = z3.Function('len_U', pyvc.U, z3.IntSort())
+    dec = z3.Function('decode_utf8', pyvc.U, pyvc.U)
+
+    def decode_model(eng, st, args, kw, node):
+        b = to_z3(args[0], 'U')
+        st.assume(z3.And(len_u(dec(b)) >= 0, len_u(dec(b)) <= len_u(b)))
+        return dec(b)
+
+    calls = {'.decode': decode_model}
+    inl = Inliner(ctx, cx, calls=calls)
+    for name in props:
+        calls['property:' + name] = (lambda nm: lambda eng, st, args, kw, node: _prop(inl, nm, st, args[0], node))(name)
+    inl.extra_calls = calls
+    b = z3.Const('specbytes_b', pyvc.U)
+    t = z3.Const('specbytes_t', pyvc.U)
+    base_pc = [len_u(b) >= 0]
+
+    def replay(model, obl):
+        return core.run_native(SPECBYTES_REPLAY, {})
+
+    def oblige(name, pc, goal):
+        ctx.add(core.valid('SpecBytes/%s' % name, list(pc), goal), replay=replay)
+
+    ctor = inl.run_ctor('SpecBytes', [b, t], pc=base_pc, label='SpecBytes.__init__[class]')
+    ctx.under_contract(PATH, 'SpecBytes.__init__')
+    ctx.under_contract(PATH, 'SpecBytes.n_bytes')
+    reach = []
+    n = 0
+    for kind, rec, s1 in ctor:
+        n += 1
+        tag = '' if n == 1 else '#%d' % n
+        oblige('ctor/does-not-raise' + tag, s1.pc, z3.BoolVal(kind == 'value'))
+        if kind != 'value':
+            continue
+        for f, want in (('spec_bytes', b), ('typ', t)):
+            has = isinstance(rec, pyvc.SRecord) and f in rec.fields
+            oblige('ctor/field-%s-is-the-argument%s' % (f, tag), s1.pc, _same_u(rec.fields[f], want) if has else z3.BoolVal(False))
+        # first read of n_bytes, then a second read on the object as the first read left it (a getter may cache)
+        cur = [(rec, list(s1.pc))]
+        for read in ('first-read', 'second-read'):
+            nxt = []
+            for r0, pc0 in cur:
+                for k2, val, s2 in inl.run_method(r0, 'n_bytes', pc=pc0, label='SpecBytes.n_bytes[%s]#%d' % (read, len(nxt))):
+                    m = len(nxt)
+                    tg = tag + ('' if m == 0 else '.%d' % (m + 1))
+                    oblige('n_bytes/%s/does-not-raise%s' % (read, tg), s2.pc, z3.BoolVal(k2 == 'value'))
+                    if k2 != 'value':
+                        continue
+                    ok = isinstance(val, (int, z3.ExprRef)) and not isinstance(val, bool)
+                    oblige('n_bytes/%s/is-the-byte-length-of-what-goes-on-the-wire%s' % (read, tg), s2.pc, (to_z3(val, 'int') == len_u(b)) if ok and (isinstance(val, int) or val.sort() == z3.IntSort()) else z3.BoolVal(False))
+                    r2 = s2.env['self']
+                    for f, want in (('spec_bytes', b), ('typ', t)):
+                        has = isinstance(r2, pyvc.SRecord) and f in r2.fields
+                        oblige('n_bytes/%s/leaves-%s-alone%s' % (read, f, tg), s2.pc, _same_u(r2.fields[f], want) if has else z3.BoolVal(False))
+                    nxt.append((r2, list(s2.pc)))
+                    if read == 'second-read':
+                        reach.append(z3.And(*s2.pc))
+            cur = nxt
+    ctx.add(core.satisfiable('SpecBytes/vacuity/construct-then-read-n_bytes-twice-reachable', z3.Or(*reach) if reach else z3.BoolVal(False)))
+    # canary: the same pipeline must refute "n_bytes is always 0"
+    ctx.add(core.satisfiable('SpecBytes/canary/n_bytes-always-zero', z3.And(*(base_pc + [len_u(b) != 0])), kind='canary'))
+    # frame: fields of SpecBytes objects are written by the class itself only
+    tree = ast.parse(core.read_repo(PATH))
+    fields = set()
+    for kind, rec, s1 in ctor:
+        if kind == 'value' and isinstance(rec, pyvc.SRecord):
+            fields.update(rec.fields)
+    inside = {id(x) for c_ in tree.body if isinstance(c_, ast.ClassDef) and c_.name == 'SpecBytes' for x in ast.walk(c_)}
+    writers = []
+    for x in ast.walk(tree):
+        if isinstance(x, ast.Attribute) and isinstance(x.ctx, (ast.Store, ast.Del)) and x.attr in fields and id(x) not in inside:
+            writers.append('L%d %s' % (x.lineno, ast.unparse(x)))
+        if isinstance(x, ast.Call) and _dotted_name(x.func) in ('setattr', 'object.__setattr__') and id(x) not in inside and len(x.args) >= 2 and isinstance(x.args[1], ast.Constant) and x.args[1].value in fields:
+            writers.append('L%d %s' % (x.lineno, ast.unparse(x)))
+    ctx.add(core.decided('SpecBytes/frame/fields-written-by-the-class-only', not writers, 'fields %s; writers outside the class: %s' % (sorted(fields), writers), kind='scan'))
+
+
+def _prop(inl, name, st, rec, node):
+    """read of a @property of a SpecBytes record: the real getter is executed on the record; when the getter has several outcomes
+    the engine re-executes the reading statement once per outcome (Fork) and the outcome decided for this node is handed back"""
+    if node is not None and id(node) in st.decided:
+        kind, payload = st.take_decided(node)
+        if kind == 'raise':
+            raise pyvc.PyRaise(payload)
+        return payload
+    if node is None:
+        raise core.Undecided('property %s read where no statement can be re-executed' % name)
+    return inl.call('SpecBytes', name, rec, [], {}, st, node)
+
+
+def _same_u(v, want):
+    return (v == want) if isinstance(v, z3.ExprRef) and v.sort() == pyvc.U else z3.BoolVal(False)
+
+
+def _dotted_name(node):
+    try:
+        return ast.unparse(node)
+    except Exception:
+        return None
 
 
 def _filters(ctx):
@@ -339,6 +480,7 @@ def native_witness(ctx):
 def build(ctx):
     for c in specbytes_contracts():
         pyvc.Engine(ctx, c).run()
+    specbytes_class(ctx)
     eng = pyvc.Engine(ctx, contract())
     eng.replayer = make_replayer(eng)
     eng.run()
